@@ -401,12 +401,15 @@ def entry_preconditions(trusted_base, results):
         for v in r.get('verdicts', []):
             m = re.search(r'#call:(.+?)\.pre\[(.*)\]$', v['name'])
             if m:
-                checked.add((m.group(1), m.group(2)))
+                checked.add((m.group(1).split('.')[-1], m.group(2)))
+            m = re.search(r'spawn:(.+?)\.pre\[(.*?)\]\]?$', v['name'])
+            if m:
+                checked.add((m.group(1).split('.')[-1], m.group(2)))
     out = []
     for a in sorted(trusted_base):
         if a.startswith('REQUIRES '):
             fn, name = a[len('REQUIRES '):].split(': ', 1)
-            if (fn, name) not in checked:
+            if (fn.split('.')[-1], name) not in checked:
                 out.append(f'ENTRY PRECONDITION of {fn} (domain of the proof: discharged at no call site under contract in this run): {name}')
     return out
 
